@@ -311,7 +311,7 @@ func RunRoute(row RouteRow, salt int) (diff string, observed string, envErr erro
 			time.Sleep(time.Millisecond)
 		}
 		if !oc.sawEOF() {
-			return "", "", fmt.Errorf("routing replay: the peer saw no EOF after the client was closed")
+			return fmt.Sprintf("address %q: 5 s after Close (Connect had returned %v) the peer still sees an open connection", cfg.Address, cerr), "open after Close", nil
 		}
 	}
 	got := "error"
